@@ -296,6 +296,7 @@ func cmdOrch(args []string) {
 }
 
 type counts struct {
+	tupleEvery               uint64
 	plain, race, cold, sweep uint64
 	maxOps                   int
 	chunk                    uint64
@@ -308,17 +309,17 @@ func (o *orch) plan(scale float64) counts {
 	case "C06":
 		c = counts{plain: 4000, maxOps: 12, chunk: 125}
 		if thorough {
-			c = counts{plain: 600000, maxOps: 40, chunk: 2500}
+			c = counts{plain: 600000, maxOps: 40, chunk: 2500, tupleEvery: 25}
 		}
 	case "C07":
 		c = counts{plain: 3200, race: 960, cold: 256, sweep: 4, chunk: 100}
 		if thorough {
-			c = counts{plain: 400000, race: 60000, cold: 12000, sweep: 64, chunk: 1000}
+			c = counts{plain: 400000, race: 60000, cold: 12000, sweep: 64, chunk: 1000, tupleEvery: 10}
 		}
 	case "C15":
 		c = counts{plain: 4800, chunk: 150}
 		if thorough {
-			c = counts{plain: 800000, chunk: 2500}
+			c = counts{plain: 800000, chunk: 2500, tupleEvery: 8}
 		}
 	default:
 		fmt.Fprintln(os.Stderr, "orch: unknown property", o.prop)
@@ -330,6 +331,9 @@ func (o *orch) plan(scale float64) counts {
 	c.sweep = uint64(float64(c.sweep) * scale)
 	if c.plain == 0 {
 		c.plain = 1
+	}
+	if c.tupleEvery == 0 {
+		c.tupleEvery = 1
 	}
 	return c
 }
@@ -361,7 +365,7 @@ func (o *orch) search(scale float64) int {
 		if to > c.plain {
 			to = c.plain
 		}
-		j := mk("plain", o.plain, idx+n, idx+to, "-tuples", filepath.Join(o.dir, fmt.Sprintf("tuples-%d.jsonl", n)))
+		j := mk("plain", o.plain, idx+n, idx+to, "-tuples", filepath.Join(o.dir, fmt.Sprintf("tuples-%d.jsonl", n)), "-tuple-every", fmt.Sprint(c.tupleEvery))
 		if first {
 			j.args = append(j.args, "-samples", "3")
 			first = false
